@@ -157,6 +157,11 @@ def run_conn(ctx, props):
                     return v["t"] == "arr" and v["l"] and v["l"][0]["t"] == "bulk" and bytes(v["l"][0]["s"]).upper() == b"THROTTLE"
                 told_denied = sum(1 for v, f in zip(cmds, rframes) if is_throttle(v) and f["t"] == "arr" and len(f["l"]) == 5
                                   and all(x["t"] == "int" for x in f["l"]) and f["l"][0]["z"] == 0)
+            if c["delta"][0] > len(rframes):
+                # every counted request is one that was answered: "allowed + errors equals everything else" that was returned
+                ctx.violations.append({"what": "C15: %d requests were counted on this connection but only %d replies were returned to the client (delta [total,http,grpc,redis,allowed,denied,errors] = %s)"
+                                               % (c["delta"][0], len(rframes), c["delta"]), "input": inp, "reply": list(real[:300])})
+                continue
             if told_denied is not None and c["delta"][5] != told_denied:
                 ctx.violations.append({"what": "C15: this connection was sent %d denial decisions but requests_denied moved by %d (delta [total,http,grpc,redis,allowed,denied,errors] = %s)"
                                                % (told_denied, c["delta"][5], c["delta"]), "input": inp, "reply": list(real[:300])})
